@@ -8,7 +8,7 @@ Line-protocol handlers for property C11.
       → `collect-error <kind> <path>` |
         `ok (work (<src> <out>)…) (store (<path> f <bytes>)|(<path> d)|(<path> n)…)
             (errors (<src> <kind> <path> <code>)…) (notdone <src>…) (tmiss <n>)`
-  c11.h (B …) (TREE …) <input> <output|->   → `h=<bool> dot=<bool> overlap=<bool>`
+  c11.h (B …) (TREE …) <input> <output|->   → `h=<bool> dot=<bool> overlap=<bool> indep=<bool>`
   c11.norm <path>                           → normalised path
   c11.ext <path>                            → `some <hex>` | `none`
   c11.reserved <assert|none> <bits>         → `(<name> <n>)…` the drained map after the calls
@@ -146,7 +146,10 @@ def handleH (req : List Sexp) : String :=
     | some b =>
     match treeOf? b tS, pathOf? inS, outputOf? outS with
     | some t, some input, some output =>
-      s!"h={h11 b t input output} dot={classDot input} overlap={classOverlap b t input output}"
+      let indep := match collectWork b t input output with
+        | .ok wl => pairwiseIndep b wl
+        | .error _ => false
+      s!"h={h11 b t input output} dot={classDot input} overlap={classOverlap b t input output} indep={indep}"
     | _, _, _ => "bad-args"
   | _ => "bad-arity"
 
